@@ -76,6 +76,8 @@ fn ranges() -> &'static Vec<(u32, u32)> {
         ranges
     })
 }
+/// change points of the gb18030 ranges table (pointer values where the pointer -> code point offset changes)
+pub fn gb18030_range_points() -> Vec<u32> { ranges().iter().map(|r| r.0).collect() }
 const BIG5_LOW: usize = (0xA1 - 0x81) * 157;
 fn big5_enc() -> &'static HashMap<u32, usize> { static C: OnceLock<HashMap<u32, usize>> = OnceLock::new(); C.get_or_init(|| {
     let big5 = ix_big5(); let mut m = big5.first_map(|p| p >= BIG5_LOW);
